@@ -281,14 +281,17 @@ theorem All₂.find {α β : Type} {R : α → β → Prop} {p : α → Bool} {q
     · exact ih
     · exact hab
 
-/-- what go/types says about the type of a trait column that the model puts in family `fam`: a type that
-unmarshals itself (`self`) implements the JSON and the YAML interface; every other column type implements none
-of the three, is basic, not a float, and `extractUnderlying` - the MODEL's - puts its kind in a family with the
-same `underlying` code as `fam` (the harness tells the model the family with the width; the code only keeps
-signed / unsigned / string) -/
+/-- what go/types says about the type of a trait column that the model puts in family `fam`: an integer-kinded
+named type with unmarshal methods of its own (`self … m`) answers the three `implements…` queries as the model's
+`Methods.implements` does (JSON, YAML: declared methods whatever the receiver; text: the value type's method
+set) and has the signed resp. unsigned integer `underlying`; every other column type implements none of the
+three, is basic, not a float, and `extractUnderlying` - the MODEL's - puts its kind in a family with the same
+`underlying` code as `fam` (the harness tells the model the family with the width; the code only keeps signed /
+unsigned / string) -/
 def FamilyOf (ty : GType) (fam : Family) : Prop :=
   match fam with
-  | .self _ => implJ ty = true ∧ implY ty = true
+  | .self _ sg _ m => implJ ty = m.implements .json ∧ implY ty = m.implements .yaml ∧ implT ty = m.implements .text ∧
+      undOf ty = some (if sg then .int64Underlying else .uint64Underlying)
   | _ => implJ ty = false ∧ implY ty = false ∧ implT ty = false ∧
       ∃ k, ty.basic = some k ∧ floatCode k = none ∧ codeOf (Genum.extractUnderlying (kindOf k)) = codeOf fam
 
@@ -304,94 +307,107 @@ structure DescRel (first : Genum.Value) (t : Genum.TraitDesc) (g : GTraitDesc) :
   fam : FamilyOf g.«Type» t.fam
   rows : All₂ (RowRel first t.ty) t.rows g.Traits
 
-theorem undOf_of_family {ty : GType} {fam : Family} (h : FamilyOf ty fam) (hs : ∀ i, fam ≠ .self i) :
+theorem undOf_of_family {ty : GType} {fam : Family} (h : FamilyOf ty fam) (hs : ∀ i sg b m, fam ≠ .self i sg b m) :
     undOf ty = some (codeOf fam) ∧ implJ ty = false ∧ implY ty = false ∧ implT ty = false := by
   cases fam with
-  | self i => exact absurd rfl (hs i)
+  | self i sg b m => exact absurd rfl (hs i sg b m)
   | _ =>
     obtain ⟨hj, hy, ht, k, hk, hf, hc⟩ := h
     refine ⟨?_, hj, hy, ht⟩
     simp [undOf, hk, codeOfKind, hf, hc]
 
+/-- the attribute test of the integer selectors, per codec: the model's `numericTraits c signed` test -/
 theorem selects_numeric {first : Genum.Value} {t : Genum.TraitDesc} {g : GTraitDesc} (h : DescRel first t g) (signed : Bool) :
-    (t.parsable && t.fam.isNumeric signed)
+    (t.parsable && t.fam.isNumeric signed && !t.fam.implements .json)
       = selects (if signed then .int64Underlying else .uint64Underlying) implJ g ∧
-    (t.parsable && t.fam.isNumeric signed)
+    (t.parsable && t.fam.isNumeric signed && !t.fam.implements .yaml)
       = selects (if signed then .int64Underlying else .uint64Underlying) implY g := by
   unfold selects
   rw [h.parsable]
   cases hf : t.fam with
-  | self i =>
+  | self i sg b m =>
     have := h.fam; rw [hf] at this
-    obtain ⟨hj, hy⟩ := this
-    simp [Family.isNumeric, hj, hy]
+    obtain ⟨hj, hy, _, hu⟩ := this
+    simp only [Family.isNumeric, Family.implements, hj, hy, hu]
+    cases sg <;> cases signed <;> simp
   | _ =>
-    have := undOf_of_family h.fam (by rw [hf]; intro i; simp)
+    have := undOf_of_family h.fam (by rw [hf]; intro i sg b m; simp)
     rw [hf] at this
     obtain ⟨hu, hj, hy, _⟩ := this
-    cases signed <;> simp [Family.isNumeric, hu, hj, hy, codeOf] <;> (try cases t.parsable <;> (try rfl) <;> decide)
+    cases signed <;> simp [Family.isNumeric, Family.implements, hu, hj, hy, codeOf] <;> (try cases t.parsable <;> (try rfl) <;> decide)
 
 theorem selects_int {first : Genum.Value} {t : Genum.TraitDesc} {g : GTraitDesc} (h : DescRel first t g) :
-    (t.parsable && t.fam.isNumeric true) = selects .int64Underlying implJ g ∧
-    (t.parsable && t.fam.isNumeric true) = selects .int64Underlying implY g := by
+    (t.parsable && t.fam.isNumeric true && !t.fam.implements .json) = selects .int64Underlying implJ g ∧
+    (t.parsable && t.fam.isNumeric true && !t.fam.implements .yaml) = selects .int64Underlying implY g := by
   simpa using selects_numeric h true
 theorem selects_uint {first : Genum.Value} {t : Genum.TraitDesc} {g : GTraitDesc} (h : DescRel first t g) :
-    (t.parsable && t.fam.isNumeric false) = selects .uint64Underlying implJ g ∧
-    (t.parsable && t.fam.isNumeric false) = selects .uint64Underlying implY g := by
+    (t.parsable && t.fam.isNumeric false && !t.fam.implements .json) = selects .uint64Underlying implJ g ∧
+    (t.parsable && t.fam.isNumeric false && !t.fam.implements .yaml) = selects .uint64Underlying implY g := by
   simpa using selects_numeric h false
 
 theorem selects_string {first : Genum.Value} {t : Genum.TraitDesc} {g : GTraitDesc} (h : DescRel first t g) :
     (t.parsable && t.fam == .nstr) = selects .stringUnderlying implJ g ∧
     (t.parsable && t.fam == .nstr) = selects .stringUnderlying implY g ∧
-    ((∀ i, t.fam ≠ .self i) → (t.parsable && t.fam == .nstr) = selects .stringUnderlying implT g) := by
+    (t.parsable && t.fam == .nstr) = selects .stringUnderlying implT g := by
   unfold selects
   rw [h.parsable]
   cases hf : t.fam with
-  | self i =>
+  | self i sg b m =>
     have := h.fam; rw [hf] at this
-    obtain ⟨hj, hy⟩ := this
-    simp [hj, hy]
+    obtain ⟨_, _, _, hu⟩ := this
+    have e1 : (Family.self i sg b m == Family.nstr) = false := by
+      rw [beq_eq_false_iff_ne]; intro e; cases e
+    have e2 : (Underlying.uint64Underlying == Underlying.stringUnderlying) = false := by decide
+    have e3 : (Underlying.int64Underlying == Underlying.stringUnderlying) = false := by decide
+    cases sg <;> simp [hu, e1, e2, e3]
   | _ =>
-    have := undOf_of_family h.fam (by rw [hf]; intro i; simp)
+    have := undOf_of_family h.fam (by rw [hf]; intro i sg b m; simp)
     rw [hf] at this
     obtain ⟨hu, hj, hy, ht⟩ := this
     simp [hu, hj, hy, ht, codeOf] <;> (try cases t.parsable <;> (try rfl) <;> decide)
 
+/-- the attribute test of the native-parsing selectors, per codec: the model's `nativeTry c` test -/
 theorem selects_self {first : Genum.Value} {t : Genum.TraitDesc} {g : GTraitDesc} (h : DescRel first t g) :
-    (t.parsable && (match t.fam with | .self _ => true | _ => false)) = (g.Parsable && implJ g.«Type») ∧
-    (t.parsable && (match t.fam with | .self _ => true | _ => false)) = (g.Parsable && implY g.«Type») := by
+    (t.parsable && t.fam.implements .json) = (g.Parsable && implJ g.«Type») ∧
+    (t.parsable && t.fam.implements .yaml) = (g.Parsable && implY g.«Type») ∧
+    (t.parsable && t.fam.implements .text) = (g.Parsable && implT g.«Type») := by
   rw [h.parsable]
   cases hf : t.fam with
-  | self i =>
+  | self i sg b m =>
     have := h.fam; rw [hf] at this
-    obtain ⟨hj, hy⟩ := this
-    simp [hj, hy]
+    obtain ⟨hj, hy, ht, _⟩ := this
+    simp [Family.implements, hj, hy, ht]
   | _ =>
-    have := undOf_of_family h.fam (by rw [hf]; intro i; simp)
-    obtain ⟨_, hj, hy, _⟩ := this
-    simp [hj, hy]
+    have := undOf_of_family h.fam (by rw [hf]; intro i sg b m; simp)
+    obtain ⟨_, hj, hy, ht⟩ := this
+    simp [Family.implements, hj, hy, ht]
 
 /-- the code's answer `gs'` is, descriptor by descriptor, the model's list `ts'` -/
 def Returns (first : Genum.Value) (r : Go.M (List GTraitDesc)) (ts' : List Genum.TraitDesc) : Prop :=
   ∃ gs', r = pure gs' ∧ All₂ (DescRel first) ts' gs'
 
-/-- `GetParsableUnderlyingInt64ForJSON` / `…Uint64ForJSON` return the model's `numericTraits` -/
+/-- `GetParsableUnderlyingInt64ForJSON` / `…Uint64ForJSON` / `…ForYAML` return the model's `numericTraits` of
+THAT codec: the parsable traits of the kind whose type has no unmarshaler of its own for the codec -/
 theorem go_getParsableInt64ForJSON_eq (first : Genum.Value) (ts : List Genum.TraitDesc) (gs : List GTraitDesc)
     (h : All₂ (DescRel first) ts gs) :
-    Returns first (GTraitDescs.GetParsableUnderlyingInt64ForJSON gs) (ts.filter (fun t => t.parsable && t.fam.isNumeric true)) :=
-  ⟨_, go_getParsableInt64ForJSON_closed gs, h.filter (p := fun t => t.parsable && t.fam.isNumeric true) (q := selects .int64Underlying implJ) (fun _ _ hab => (selects_int hab).1)⟩
+    Returns first (GTraitDescs.GetParsableUnderlyingInt64ForJSON gs) (ts.filter (fun t => t.parsable && t.fam.isNumeric true && !t.fam.implements .json)) :=
+  ⟨_, go_getParsableInt64ForJSON_closed gs, h.filter (p := fun t => t.parsable && t.fam.isNumeric true && !t.fam.implements .json) (q := selects .int64Underlying implJ) (fun _ _ hab => (selects_int hab).1)⟩
 theorem go_getParsableUint64ForJSON_eq (first : Genum.Value) (ts : List Genum.TraitDesc) (gs : List GTraitDesc)
     (h : All₂ (DescRel first) ts gs) :
-    Returns first (GTraitDescs.GetParsableUnderlyingUint64ForJSON gs) (ts.filter (fun t => t.parsable && t.fam.isNumeric false)) :=
-  ⟨_, go_getParsableUint64ForJSON_closed gs, h.filter (p := fun t => t.parsable && t.fam.isNumeric false) (q := selects .uint64Underlying implJ) (fun _ _ hab => (selects_uint hab).1)⟩
+    Returns first (GTraitDescs.GetParsableUnderlyingUint64ForJSON gs) (ts.filter (fun t => t.parsable && t.fam.isNumeric false && !t.fam.implements .json)) :=
+  ⟨_, go_getParsableUint64ForJSON_closed gs, h.filter (p := fun t => t.parsable && t.fam.isNumeric false && !t.fam.implements .json) (q := selects .uint64Underlying implJ) (fun _ _ hab => (selects_uint hab).1)⟩
 theorem go_getParsableInt64ForYAML_eq (first : Genum.Value) (ts : List Genum.TraitDesc) (gs : List GTraitDesc)
     (h : All₂ (DescRel first) ts gs) :
-    Returns first (GTraitDescs.GetParsableUnderlyingInt64ForYAML gs) (ts.filter (fun t => t.parsable && t.fam.isNumeric true)) :=
-  ⟨_, go_getParsableInt64ForYAML_closed gs, h.filter (p := fun t => t.parsable && t.fam.isNumeric true) (q := selects .int64Underlying implY) (fun _ _ hab => (selects_int hab).2)⟩
+    Returns first (GTraitDescs.GetParsableUnderlyingInt64ForYAML gs) (ts.filter (fun t => t.parsable && t.fam.isNumeric true && !t.fam.implements .yaml)) :=
+  ⟨_, go_getParsableInt64ForYAML_closed gs, h.filter (p := fun t => t.parsable && t.fam.isNumeric true && !t.fam.implements .yaml) (q := selects .int64Underlying implY) (fun _ _ hab => (selects_int hab).2)⟩
 theorem go_getParsableUint64ForYAML_eq (first : Genum.Value) (ts : List Genum.TraitDesc) (gs : List GTraitDesc)
     (h : All₂ (DescRel first) ts gs) :
-    Returns first (GTraitDescs.GetParsableUnderlyingUint64ForYAML gs) (ts.filter (fun t => t.parsable && t.fam.isNumeric false)) :=
-  ⟨_, go_getParsableUint64ForYAML_closed gs, h.filter (p := fun t => t.parsable && t.fam.isNumeric false) (q := selects .uint64Underlying implY) (fun _ _ hab => (selects_uint hab).2)⟩
+    Returns first (GTraitDescs.GetParsableUnderlyingUint64ForYAML gs) (ts.filter (fun t => t.parsable && t.fam.isNumeric false && !t.fam.implements .yaml)) :=
+  ⟨_, go_getParsableUint64ForYAML_closed gs, h.filter (p := fun t => t.parsable && t.fam.isNumeric false && !t.fam.implements .yaml) (q := selects .uint64Underlying implY) (fun _ _ hab => (selects_uint hab).2)⟩
+
+/-- the lists of the theorems above ARE the model's `numericTraits` -/
+theorem numericTraits_def (g : GenFull) (c : Codec) (signed : Bool) :
+    g.numericTraits c signed = g.traits.filter (fun t => t.parsable && t.fam.isNumeric signed && !t.fam.implements c) := rfl
 
 /-- the string selectors return the model's string family (`stringTry`) -/
 theorem go_getParsableStringForJSON_eq (first : Genum.Value) (ts : List Genum.TraitDesc) (gs : List GTraitDesc)
@@ -402,18 +418,25 @@ theorem go_getParsableStringForYAML_eq (first : Genum.Value) (ts : List Genum.Tr
     (h : All₂ (DescRel first) ts gs) :
     Returns first (GTraitDescs.GetParsableUnderlyingStringForYAML gs) (ts.filter (fun t => t.parsable && t.fam == .nstr)) :=
   ⟨_, go_getParsableStringForYAML_closed gs, h.filter (p := fun t => t.parsable && t.fam == .nstr) (q := selects .stringUnderlying implY) (fun _ _ hab => (selects_string hab).2.1)⟩
+theorem go_getParsableStringForText_eq (first : Genum.Value) (ts : List Genum.TraitDesc) (gs : List GTraitDesc)
+    (h : All₂ (DescRel first) ts gs) :
+    Returns first (GTraitDescs.GetParsableUnderlyingStringForText gs) (ts.filter (fun t => t.parsable && t.fam == .nstr)) :=
+  ⟨_, go_getParsableStringForText_closed gs, h.filter (p := fun t => t.parsable && t.fam == .nstr) (q := selects .stringUnderlying implT) (fun _ _ hab => (selects_string hab).2.2)⟩
 
-/-- the native-parsing selectors return the parsable traits of the model's `self` family (`nativeTry`) -/
+/-- the native-parsing selectors return the parsable traits whose type brings the codec's unmarshaler: the
+traits the model's `nativeTry c` hands the document to -/
 theorem go_getParsableJSONUnmarshalable_eq (first : Genum.Value) (ts : List Genum.TraitDesc) (gs : List GTraitDesc)
     (h : All₂ (DescRel first) ts gs) :
-    Returns first (GTraitDescs.GetParsableJSONUnmarshalable gs)
-      (ts.filter (fun t => t.parsable && (match t.fam with | .self _ => true | _ => false))) :=
-  ⟨_, go_getParsableJSONUnmarshalable_closed gs, h.filter (p := fun t => t.parsable && (match t.fam with | .self _ => true | _ => false)) (q := fun t => t.Parsable && implJ t.«Type») (fun _ _ hab => (selects_self hab).1)⟩
+    Returns first (GTraitDescs.GetParsableJSONUnmarshalable gs) (ts.filter (fun t => t.parsable && t.fam.implements .json)) :=
+  ⟨_, go_getParsableJSONUnmarshalable_closed gs, h.filter (p := fun t => t.parsable && t.fam.implements .json) (q := fun t => t.Parsable && implJ t.«Type») (fun _ _ hab => (selects_self hab).1)⟩
 theorem go_getParsableYAMLUnmarshalable_eq (first : Genum.Value) (ts : List Genum.TraitDesc) (gs : List GTraitDesc)
     (h : All₂ (DescRel first) ts gs) :
-    Returns first (GTraitDescs.GetParsableYAMLUnmarshalable gs)
-      (ts.filter (fun t => t.parsable && (match t.fam with | .self _ => true | _ => false))) :=
-  ⟨_, go_getParsableYAMLUnmarshalable_closed gs, h.filter (p := fun t => t.parsable && (match t.fam with | .self _ => true | _ => false)) (q := fun t => t.Parsable && implY t.«Type») (fun _ _ hab => (selects_self hab).2)⟩
+    Returns first (GTraitDescs.GetParsableYAMLUnmarshalable gs) (ts.filter (fun t => t.parsable && t.fam.implements .yaml)) :=
+  ⟨_, go_getParsableYAMLUnmarshalable_closed gs, h.filter (p := fun t => t.parsable && t.fam.implements .yaml) (q := fun t => t.Parsable && implY t.«Type») (fun _ _ hab => (selects_self hab).2.1)⟩
+theorem go_getParsableTextUnmarshalable_eq (first : Genum.Value) (ts : List Genum.TraitDesc) (gs : List GTraitDesc)
+    (h : All₂ (DescRel first) ts gs) :
+    Returns first (GTraitDescs.GetParsableTextUnmarshalable gs) (ts.filter (fun t => t.parsable && t.fam.implements .text)) :=
+  ⟨_, go_getParsableTextUnmarshalable_closed gs, h.filter (p := fun t => t.parsable && t.fam.implements .text) (q := fun t => t.Parsable && implT t.«Type») (fun _ _ hab => (selects_self hab).2.2)⟩
 
 /-- `InstanceOf` on a descriptor without repeated Parse keys is the model's `instanceOf` -/
 theorem go_instanceOf_eq (first : Genum.Value) (t : Genum.TraitDesc) (g : GTraitDesc) (h : DescRel first t g)
